@@ -18,7 +18,7 @@ IN_PROCESS = ["NoCache", "MemoryCache", "CacheProxy(MemoryCache)", "MemoryCache+
               "MemoryCache.if_contains(ABC)+MemoryCache", "MemoryCache.if_attribute_equal(ns,root)", "StoreCache(MemoryStore)", "StoreCache(MemoryStore,flat)",
               "MemoryCache.if_contains(ABC)", "MemoryCache.if_attribute_not_equal(ns,second)"]
 
-SETTERS = ["one/let-v-x", "one/let-w-y/state_variable-w", "lst-a/appendvar/state_variable-lv", "one/cset-w-cw", "one/cset-v-cv/st", "one/ns-second/add-3",
+SETTERS = ["cmut", "cmut-lv-q/state_variable-lv", "one/let-v-x", "one/let-w-y/state_variable-w", "lst-a/appendvar/state_variable-lv", "one/cset-w-cw", "one/cset-v-cv/st", "one/ns-second/add-3",
            "one/let-v-x/add-~X~state_variable-w~E", "one/cmut/state_variable-lv", "one/appendvar-lv-k/appendvar", "one/let-lv-s", "one/fail",
            "one/let-v-x/fail", "one/sub-" + M.encode_token("one/let-v-sub"), "one/let-active_namespaces-zzz"]
 READERS = ["one/cget", "one/cget-w", "one/cget-lv", "one/state_variable-v", "one/state_variable-w", "one/state_variable-lv", "one/st", "one/add-3", "hello/cat-~X~state_variable-v~E",
